@@ -97,9 +97,11 @@ Definition titem_v (x : nat * titem) : val :=
 (** exact loader line.
     input  = (-2 files strategy (seed-hi seed-lo) epoch pcfg (g tokenizer) lim skip ff rank W sort shuffle prefetch blim ty threads buffer threads2 buffer2)
              lim < 0: no limit; strategy 0 sequential 1 interleaved 2 weighted
-    output = (1 min_items batches same) | (0) init fails | (-777) a pipeline call panics | (-4) fuel | (-5) outside the model
+    output = (1 min_items batches same table_ok) | (0) init fails | (-777) a pipeline call panics | (-4) fuel | (-5) outside the model
              batches: lists of items (input target token_ids labels); same = 1: a second run with
-             (threads2, buffer2) gave the same batches and tensors *)
+             (threads2, buffer2) gave the same batches and tensors; table_ok = 1: every delivered item is an entry of
+             the table the harness computes with the public [train_pipeline], single-threaded, position by position
+             (the oracle of the scenario line, here a cross-check only) *)
 Definition run_loader (v : val) : val :=
   let files := v_files (v_nth 1 v) in
   let s := v_strategy (v_nth 2 v) in
@@ -117,7 +119,7 @@ Definition run_loader (v : val) : val :=
                      (v_lim total (v_nth 7 v)) (v_nat (v_nth 8 v)) (v_nat (v_nth 9 v)) (v_nat (v_nth 10 v))
                      (v_nat (v_nth 11 v)) (v_bool (v_nth 12 v)) (v_bool (v_nth 13 v)) (v_nat (v_nth 14 v))
                      (v_nat (v_nth 15 v)) (v_ty (v_nth 16 v)) with
-    | LOk m bs => L [I 1%Z; nat_v m; list_v (list_v titem_v) bs; I 1%Z]
+    | LOk m bs => L [I 1%Z; nat_v m; list_v (list_v titem_v) bs; I 1%Z; I 1%Z]
     | LCtor => L [I 0%Z]
     | LPanic => v_panic
     | LFuel => L [I (-4)%Z]
@@ -139,11 +141,11 @@ Definition check_preproc (v o : val) : bool :=
   | _ => false
   end.
 
-(** exact loader line: shape, and the second run (other thread count / buffer size) was identical *)
+(** exact loader line: shape, the second run (other thread count / buffer size) was identical, table cross-check *)
 Definition check_loader (v o : val) : bool :=
   match o with
   | L [I 0%Z] => true
-  | L [I 1%Z; I _; L _; I 1%Z] => true
+  | L [I 1%Z; I _; L _; I 1%Z; I 1%Z] => true
   | _ => false
   end.
 
